@@ -63,6 +63,27 @@ pub fn normalize_mpq_path(path: &str) -> String {
     path.replace('/', "\\")
 }
 
+/// Return the plain file name (the part after the last path separator)
+///
+/// MPQ file encryption keys are derived from the plain name only, never from the
+/// directory part of the archive path.
+///
+/// # Examples
+///
+/// ```
+/// use wow_mpq::path::plain_file_name;
+///
+/// assert_eq!(plain_file_name("dir\\sub\\file.txt"), "file.txt");
+/// assert_eq!(plain_file_name("dir/file.txt"), "file.txt");
+/// assert_eq!(plain_file_name("file.txt"), "file.txt");
+/// ```
+pub fn plain_file_name(path: &str) -> &str {
+    match path.rfind(['\\', '/']) {
+        Some(pos) => &path[pos + 1..],
+        None => path,
+    }
+}
+
 /// Convert an MPQ path to a system path
 ///
 /// On Windows, this is a no-op since Windows uses backslashes.
